@@ -68,6 +68,9 @@ class NormalizingExperimenter(experimenter.Experimenter):
     for parameters in sampled_params:
       trial = vz.Trial(parameters=parameters)
       exptr.evaluate([trial])
+      if trial.infeasible:
+        # Infeasible trials carry no (or NaN) metric values.
+        continue
       measurement = trial.final_measurement
       for name, metric in (measurement.metrics if measurement else {}).items():
         metrics[name].append(metric.value)
